@@ -137,7 +137,8 @@ def diff(ctx, shape, axis, scheme='backward', keepaxis=False, n=1, lkinds=None, 
     return ctx.done(same(ctx, r[1], Ref(dims, elabels, cells), attrs=attrs), ctx.observe(r[1]))
 
 
-def argext(ctx, shape, func, axis, skipna=False, nan=False, lkinds=None, transposed=False):
+def argext(ctx, shape, func, axis, skipna=False, nan=False, lkinds=None, transposed=False, under=None):
+    ctx.under(under)
     lkinds = lkinds or ['U', 'i', 'f', 'i'][:len(shape)]
     a, ref, dims, labels, attrs = _build(ctx, shape, lkinds, 'f', nan)
     if transposed:
@@ -181,7 +182,7 @@ def argext(ctx, shape, func, axis, skipna=False, nan=False, lkinds=None, transpo
                 return ctx.done(False, ctx.observe(res))
             p.append(i)
         # indexing the array with the returned labels yields the extremum
-        back = ctx.call(lambda: a[tuple(res)])
+        back = ctx.call(lambda: (a.loc[tuple(res)] if under else a[tuple(res)]))     # by label, whatever the default mode
         ok = extremal(ref.at(p), ref.cells)
         if back[0] != 'ok':
             return ctx.done(False, back[1])
@@ -295,4 +296,8 @@ def templates():
         for func in ('cumsum', 'cumprod'):
             for axis in (None, 'y', 1):
                 add('width-%s-%s-%s' % (dt, func, axis), 'width', cost=0.1, dt=dt, func=func, axis=axis)
+    # entry points whose meaning is fixed (labels out) under the global option indexing.by = 'position'
+    for func in ('argmin', 'argmax'):
+        for shape, axis in (([3], None), ([3], 0), ([2, 3], 'name1'), ([2, 2], None)):
+            add('%s-under-position-%s-%s' % (func, 'x'.join(map(str, shape)), axis), 'argext', cost=1, shape=shape, func=func, axis=axis, under={'indexing.by': 'position'})
     return ts
